@@ -95,6 +95,7 @@ struct Slot {                        // one per worker, in shared memory
 	volatile int c[MAXD], n[MAXD];
 	volatile int done;               // worker finished its enumeration for the pass
 	volatile int deadline_hit;
+	volatile uint64_t risk;          // key of the risky section being executed (0 = none)
 	char sig[256];
 	char desc[512];
 };
@@ -131,6 +132,16 @@ public:
 	}
 	const std::string& sigbase() const { return mSigBase; }
 	void heartbeat() { if (mSlot) mSlot->heartbeat = mSlot->heartbeat + 1; }
+	// Crash memo: enter(key) returns false if a section with the same key killed a worker earlier in
+	// this run (the crash was recorded as a violation then); otherwise marks the section as running.
+	bool enter(uint64_t key) {
+		if (key == 0) key = 1;
+		if (mCrashed) { for (size_t i = 0, h = static_cast<size_t>(mix(key)) & (kCrashTab - 1); i < 64; ++i, h = (h + 1) & (kCrashTab - 1)) { uint64_t v = mCrashed[h]; if (v == key) return false; if (v == 0) break; } }
+		if (mSlot) mSlot->risk = key;
+		return true;
+	}
+	void leave() { if (mSlot) mSlot->risk = 0; }
+	static constexpr size_t kCrashTab = 1 << 16;
 	void outcome(const std::string& cls) { mOutcomes.push_back(cls); }
 	void nontrivial(const std::string& key) { mNontrivial.push_back(fnv(key)); }
 	void nontrivial(uint64_t key) { mNontrivial.push_back(key); }
@@ -176,11 +187,11 @@ private:
 	void reset(const std::vector<int>& prefix) {
 		mPrefix = prefix; mTaken.clear(); mArity.clear(); mIsDev.clear(); mDevUsed = 0;
 		mOutcomes.clear(); mNontrivial.clear(); mStates.clear(); mAux.clear(); mTrans = 0; mExtraEvals = 0; mSamples.clear(); mViol.clear(); mDesc.clear(); mSigBase.clear();
-		if (mSlot) { mSlot->depth = 0; mSlot->desc[0] = 0; mSlot->sig[0] = 0; }
+		if (mSlot) { mSlot->depth = 0; mSlot->desc[0] = 0; mSlot->sig[0] = 0; mSlot->risk = 0; }
 	}
 	std::vector<int> mPrefix, mTaken, mArity; std::vector<char> mIsDev;
 	int mDevUsed = 0, mPartDepth = 2, mWorkers = 1, mWorker = 0; uint64_t mSalt = 0;
-	Slot* mSlot = nullptr;
+	Slot* mSlot = nullptr; volatile uint64_t* mCrashed = nullptr;
 	std::vector<std::string> mOutcomes, mSamples; std::vector<uint64_t> mNontrivial, mStates, mAux;
 	uint64_t mTrans = 0, mExtraEvals = 0;
 	std::vector<std::pair<std::string, std::string>> mViol;
@@ -218,7 +229,7 @@ public:
 
 private:
 	const char* mProp; Body mBody; Config mCfg; std::string mTier; uint64_t mSeed = 0;
-	Slot* mSlots = nullptr; std::string mDir;
+	Slot* mSlots = nullptr; std::string mDir; volatile uint64_t* mCrashTab = nullptr;
 	double now() const { return std::chrono::duration<double>(std::chrono::steady_clock::now().time_since_epoch()).count(); }
 
 	static void terminateHandler() {
@@ -257,11 +268,12 @@ private:
 	void workerLoop(int w, int nw, int budget, std::vector<int> start, bool startIsResume) {
 		std::set_terminate(terminateHandler);
 		Slot* slot = &mSlots[w];
-		Ctx c; c.tier = mTier; c.seed = mSeed; c.budget = budget; c.mSlot = slot; c.mPartDepth = mCfg.part_depth; c.mWorkers = nw; c.mWorker = w; c.mSalt = mix(mSeed + 1);
+		Ctx c; c.tier = mTier; c.seed = mSeed; c.budget = budget; c.mSlot = slot; c.mCrashed = mCrashTab; c.mPartDepth = mCfg.part_depth; c.mWorkers = nw; c.mWorker = w; c.mSalt = mix(mSeed + 1);
 		slot->budget = budget;
 		std::string recName = mDir + "/rec." + std::to_string(w) + ".jsonl", keyName = mDir + "/keys." + std::to_string(w) + ".bin";
 		int recFd = open(recName.c_str(), O_WRONLY | O_CREAT | O_APPEND, 0644);
 		FILE* keys = fopen(keyName.c_str(), "ab");
+		static char keyBuf[9 * 512]; setvbuf(keys, keyBuf, _IOFBF, sizeof keyBuf);   // record-aligned flushes: a crash never leaves a partial record
 		std::unordered_set<uint64_t> seenOut, seenNt, seenSt, seenAx; std::unordered_map<std::string, int> sigCount; int samples = 0;
 		auto putKey = [&](char kind, uint64_t h) { fputc(kind, keys); fwrite(&h, 8, 1, keys); };
 		std::vector<int> prefix = start;
@@ -319,6 +331,7 @@ private:
 		mDir = tmpl;
 		int nw = std::max(1, std::min(mCfg.jobs, MAXW));
 		mSlots = static_cast<Slot*>(mmap(nullptr, sizeof(Slot) * MAXW, PROT_READ | PROT_WRITE, MAP_SHARED | MAP_ANONYMOUS, -1, 0));
+		mCrashTab = static_cast<volatile uint64_t*>(mmap(nullptr, sizeof(uint64_t) * Ctx::kCrashTab, PROT_READ | PROT_WRITE, MAP_SHARED | MAP_ANONYMOUS, -1, 0));
 		struct Crash { std::string kind, sig, desc, log; std::vector<int> choices; int budget; };
 		std::vector<Crash> crashes; bool deadlineHit = false; int completedBudget = -1;
 		uint64_t totExec = 0, totCp = 0, totTrans = 0; int maxDepth = 0; uint64_t restarts = 0;
@@ -370,6 +383,7 @@ private:
 					if (cr.kind == "ubsan" || cr.kind == "asan") cr.kind += sanitizerClass(cr.log);
 					if (cr.kind == "terminate") { size_t q = cr.log.find("active_exception="); if (q != std::string::npos) { size_t e2 = cr.log.find(' ', q); cr.kind += ":" + cr.log.substr(q + 17, e2 - q - 17); } }
 					if (cr.kind == "signal6" && cr.log.find("NONDETERMINISM") != std::string::npos) cr.kind = "nondeterminism";
+					if (uint64_t rk = mSlots[w].risk) { for (size_t i = 0, h = static_cast<size_t>(mix(rk)) & (Ctx::kCrashTab - 1); i < 64; ++i, h = (h + 1) & (Ctx::kCrashTab - 1)) { if (mCrashTab[h] == rk) break; if (mCrashTab[h] == 0) { mCrashTab[h] = rk; break; } } }
 					crashes.push_back(cr); ++restarts;
 					if (d == 0 || restarts > 20000) { fprintf(stderr, "bsx: worker %d died before its first choice or too many restarts (%s)\n%s\n", w, cr.kind.c_str(), cr.log.c_str()); continue; }
 					mResumeArity = ar; mSlots[w].done = 0;
